@@ -13,9 +13,9 @@ import tgen
 PROP = "C15"
 LEVEL = "proof"
 GEN_UNITS = ["GenUtils"]      # wave 4: Props/C15w4.v states NEW symmetrize / issymmetric over the generated tt_ind2sub / tt_sub2ind
-COQ_TARGETS = ["Props/C15.vo", "Props/C15w4.vo", "Props/C15w5.vo", "Model/C15Inst.vo", "Model/C15KLoopInst.vo", "Model/C15K.vo", "Model/C08Inst.vo",
+COQ_TARGETS = ["Props/C15.vo", "Props/C15w4.vo", "Props/C15w5.vo", "Props/C15w5R.vo", "Model/C15Inst.vo", "Model/C15KLoopInst.vo", "Model/C15K.vo", "Model/C08Inst.vo",
                "Model/Harness.vo"]
-THEOREM_FILES = ["Props/C15.v", "Props/C15w4.v", "Props/C15w5.v"]
+THEOREM_FILES = ["Props/C15.v", "Props/C15w4.v", "Props/C15w5.v", "Props/C15w5R.v"]
 COQ_IMPORTS = ("From Coq Require Import List ZArith QArith Qcanon Bool.\n"
                "From PV Require Import Base.Index Np.Array Model.Repr Model.Harness Model.C15Sym Model.C15Impl Model.C15K Model.C15KSym Model.C15Inst Model.C15KLoop Model.C15KLoopInst Model.C08Inst.\n")
 RULE = ("shapes (2,3,3), (3,2,3,2), (2,3,3,2), (3,2,2,3), (2,2,2,2), (3,3,3), (2,2), (3,3), (2,2,3) ...; EVERY choice of one group "
@@ -84,6 +84,10 @@ EXPLANATION = ("Theorems (all shapes, groups, values of a commutative ring; char
                "as written; factors with PROPORTIONAL columns (B.diag(c_k), scalars non-zero: scrambled signs / scalings) are turned by "
                "normalize('all') into signed copies of one matrix (C15_ksym_normalize_signed_copies; oracle: the norm is absolutely "
                "homogeneous) and keep their value (C15_ksym_proportional_keeps, C15_ksym_code_proportional_keeps). "
+               "Props/C15w5R.v: every oracle hypothesis of these theorems is PROVED for the real numbers with pyttb's operations (1/x, "
+               "2-norm, 0 < x, x < 0, x^(1/N)), so over R the method as written keeps the value of every Kruskal tensor with proportional "
+               "columns / identical factors, answers symmetric tensors and refuses non-cubical requests with no oracle assumption (axioms: "
+               "the standard library's reals). "
                "All transliterations are additionally executed and compared with the spec / with pyttb on every generated input.")
 
 
